@@ -127,6 +127,13 @@ where
     }
 }
 
+#[cfg(bma400_verif)]
+impl ActChgConfig {
+    pub(crate) fn verif_visit(&mut self, f: &mut dyn FnMut(u8, u8) -> Option<u8>) {
+        verif_visit_fields!(self, f, actchg_config0: ActChgConfig0, actchg_config1: ActChgConfig1);
+    }
+}
+
 #[cfg(test)]
 mod tests {
     use super::*;
